@@ -169,6 +169,17 @@ type Config struct {
 	// cache-less handle on the same storage (another process changes the keys while a
 	// long-running handle keeps reading).
 	ForeignWrites bool `json:"foreign_writes,omitempty"`
+	// DirSpelling is how the operator spelled the v1 key directory: "" canonical, "slash" with a
+	// trailing path separator (as in --keys_dir=/var/lib/acra/keys/). Same directory either way.
+	DirSpelling string `json:"dir_spelling,omitempty"`
+}
+
+// spell returns the key directory as the operator wrote it.
+func (c Config) spell(dir string) string {
+	if c.DirSpelling == "slash" {
+		return dir + "/"
+	}
+	return dir
 }
 
 // Cached reports whether the main handle has a key cache.
@@ -189,6 +200,9 @@ func (c Config) Name() string {
 	}
 	if c.ForeignWrites {
 		n += "-foreign"
+	}
+	if c.DirSpelling != "" {
+		n += "-dir" + c.DirSpelling
 	}
 	return n
 }
